@@ -265,8 +265,10 @@ func c06Gen(r *rand.Rand, tier string) []string {
 	// are still being started or are in their only shoot
 	for i := 0; i < nEngine/4; i++ {
 		agg := []string{"phout", "jsonlines"}[r.Intn(2)]
+		// slow=0: the instances that got ammo are finished, and their results taken, before instance start is over — the
+		// start result is then the LAST thing the pool's await loop sees before it has to issue the cancel
 		out = append(out, fmt.Sprintf("kind=engine agg=%s pools=1 inst=%d ammo=%d per=%d q=64 slow=%d cancel=-1 seed=%d startrps=%d",
-			agg, []int{4, 8, 12}[r.Intn(3)], 1+r.Intn(3), 1+r.Intn(2), []int{2000, 4000}[r.Intn(2)], r.Intn(1<<20), []int{1000, 2500}[r.Intn(2)]))
+			agg, []int{4, 8, 12}[r.Intn(3)], 1+r.Intn(3), 1+r.Intn(2), []int{0, 2000, 4000}[r.Intn(3)], r.Intn(1<<20), []int{200, 1000, 2500}[r.Intn(3)]))
 	}
 	for i := 0; i < nSinkFail; i++ {
 		out = append(out, fmt.Sprintf("kind=sinkfail agg=%s n=%d limit=%d", []string{"phout", "jsonlines"}[i%2],
